@@ -3,23 +3,30 @@ package main
 // Exporter histories shared by C02 / C08 / C09: a real ExportingProcess over TCP or UDP to a
 // listener owned by the harness. Case syntax:
 //
-//	<tcp|udp> <obsDomain> <seq0> <full|dig> { S <set ops> ; }*
+//	<tcp|udp> <obsDomain> <seq0> <full|dig> { S <set ops> ; | C <k> <set ops> ; | W }*
 //
-// Each "S" builds a fresh set with the builder operations (setops.go) and calls SendSet.
+// Each "S" builds a fresh set with the builder operations (setops.go) and calls SendSet; "C k"
+// applies the operations to the set object of the k-th "S" (as it was left: reused with or
+// without ResetSet) and calls SendSet on it again; the operations AS / M / G share and change
+// element objects and call GetBuffer (setops.go); "W" waits for the template refresh of a UDP
+// exporter (the exporter of such a case is created with TempRefTimeout = 1 s).
 // Observation per send: r=ok:<n> | r=err:<class> | r=panic, the exact bytes that arrived at the
 // peer socket for that call (w=..., export time zeroed after it was checked against the
 // harness's own clock readings: t=ok|bad), and at the end the registered template ids, the
 // sequence counter and any bytes that arrived without a successful call (stray=...).
 
 import (
+	"bytes"
 	"encoding/binary"
 	"encoding/hex"
 	"fmt"
 	"io"
 	"net"
+	"sort"
 	"strings"
 	"time"
 
+	"github.com/vmware/go-ipfix/pkg/entities"
 	"github.com/vmware/go-ipfix/pkg/exporter"
 )
 
@@ -61,13 +68,16 @@ func newPeer(proto string) (*peer, string) {
 			panic(err)
 		}
 		p.ln = ln
-		p.acc = make(chan net.Conn, 1)
+		p.acc = make(chan net.Conn, 8)
 		go func() {
-			c, err := ln.Accept()
-			if err == nil {
+			// every connection of the case (a history may reconnect)
+			for {
+				c, err := ln.Accept()
+				if err != nil {
+					close(p.acc)
+					return
+				}
 				p.acc <- c
-			} else {
-				close(p.acc)
 			}
 		}()
 		return p, ln.Addr().String()
@@ -109,6 +119,28 @@ func (p *peer) recv(n int) []byte {
 	return b[:k]
 }
 
+// endSession returns whatever else arrives from a process that was closed, and keeps the
+// listener / socket for the next process of the history.
+func (p *peer) endSession() []byte {
+	var out []byte
+	if p.proto == "tcp" {
+		p.conn.SetReadDeadline(time.Now().Add(2 * time.Second))
+		out, _ = io.ReadAll(p.conn)
+		p.conn.Close()
+		return out
+	}
+	b := make([]byte, 70000)
+	for {
+		p.udp.SetReadDeadline(time.Now().Add(15 * time.Millisecond))
+		k, _, err := p.udp.ReadFromUDP(b)
+		if err != nil {
+			break
+		}
+		out = append(out, b[:k]...)
+	}
+	return out
+}
+
 // drain returns whatever else arrives (after the exporter closed its side, for TCP).
 func (p *peer) drain() []byte {
 	var out []byte
@@ -132,27 +164,119 @@ func (p *peer) drain() []byte {
 	return out
 }
 
-func runHist(toks []string) string {
-	proto, obs, seq0, mode := toks[0], uint32(atou(toks[1])), uint32(atou(toks[2])), toks[3]
-	rest := toks[4:]
-	p, addr := newPeer(proto)
-	ep, err := exporter.InitExportingProcess(exporter.ExporterInput{
-		CollectorAddress: addr, CollectorProtocol: proto, ObservationDomainID: obs,
-		CheckConnInterval: time.Hour,
-	})
-	if err != nil {
-		panic(err)
-	}
-	p.ready()
-	ep.VerifSetSeq(seq0)
-	var out []string
+// histEvent is one event of a history: a SendSet on a new (obj < 0) or an earlier set object
+// after some operations, or a wait for the template refresh.
+type histEvent struct {
+	wait   bool
+	reconn bool
+	seq0   uint32
+	noHook bool
+	obj    int
+	ops    []setOp
+}
+
+func parseHist(rest []string) []histEvent {
+	var evs []histEvent
 	for len(rest) > 0 {
-		if rest[0] != "S" {
+		switch rest[0] {
+		case "S":
+			var ops []setOp
+			ops, rest = parseSetOps(rest[1:])
+			evs = append(evs, histEvent{obj: -1, ops: ops})
+		case "C":
+			var ops []setOp
+			k := atoi(rest[1])
+			ops, rest = parseSetOps(rest[2:])
+			evs = append(evs, histEvent{obj: k, ops: ops})
+		case "W":
+			evs = append(evs, histEvent{wait: true})
+			rest = rest[1:]
+		case "X":
+			if rest[1] == "-" {
+				evs = append(evs, histEvent{reconn: true, noHook: true})
+			} else {
+				evs = append(evs, histEvent{reconn: true, seq0: uint32(atou(rest[1]))})
+			}
+			rest = rest[2:]
+		default:
 			panic("bad history token " + rest[0])
 		}
-		var ops []setOp
-		ops, rest = parseSetOps(rest[1:])
-		set, _ := buildSet(ops)
+	}
+	return evs
+}
+
+// runHist runs one history; a history that waits for the template refresh is run again when
+// the machine was too slow for the timing to be meaningful.
+func runHist(toks []string) string {
+	out, ok := "", false
+	for try := 0; try < 4 && !ok; try++ {
+		out, ok = runHistOnce(toks)
+	}
+	return out
+}
+
+func runHistOnce(toks []string) (string, bool) {
+	proto, obs, seq0, mode := toks[0], uint32(atou(toks[1])), uint32(atou(toks[2])), toks[3]
+	evs := parseHist(toks[4:])
+	refresh := uint32(0) // the default (600 s): no refresh during the case
+	for _, ev := range evs {
+		if ev.wait {
+			refresh = 1
+		}
+	}
+	p, addr := newPeer(proto)
+	var tInit time.Time
+	var ep *exporter.ExportingProcess
+	connect := func(q uint32, hook bool) {
+		tInit = time.Now()
+		var err error
+		ep, err = exporter.InitExportingProcess(exporter.ExporterInput{
+			CollectorAddress: addr, CollectorProtocol: proto, ObservationDomainID: obs,
+			CheckConnInterval: time.Hour, TempRefTimeout: refresh,
+		})
+		if err != nil {
+			panic(err)
+		}
+		p.ready()
+		if hook {
+			ep.VerifSetSeq(q)
+		}
+	}
+	connect(seq0, true)
+	timely := true
+	var out []string
+	var sets []entities.Set
+	ctx := &objCtx{}
+	for _, ev := range evs {
+		if ev.wait {
+			o, ok := waitRefresh(p, ep, tInit, mode)
+			timely = timely && ok
+			out = append(out, o)
+			continue
+		}
+		if ev.reconn {
+			// the process is closed and a new one is created for the same collector and domain;
+			// the application keeps its set and element objects
+			if refresh != 0 && time.Since(tInit) > 1900*time.Millisecond {
+				timely = false
+			}
+			ep.CloseConnToCollector()
+			out = append(out, "x="+ShowBytes(p.endSession()))
+			connect(ev.seq0, !ev.noHook)
+			continue
+		}
+		var set entities.Set
+		if ev.obj < 0 {
+			set = entities.NewSet(false)
+			sets = append(sets, set)
+		} else if ev.obj < len(sets) {
+			set = sets[ev.obj]
+		} else {
+			set = entities.NewSet(false)
+		}
+		for _, o := range ev.ops {
+			applyOpCtx(ctx, set, o, "")
+		}
 		res, n := "", 0
 		t0 := time.Now().Unix()
 		func() {
@@ -184,20 +308,87 @@ func runHist(toks []string) string {
 		}
 		out = append(out, res+" w="+w+" t="+tk)
 	}
-	ids := ep.VerifTemplateIDs()
-	idl := make([]string, len(ids))
-	for i, id := range ids {
-		idl[i] = fmt.Sprint(id)
+	if refresh != 0 && time.Since(tInit) > 1900*time.Millisecond {
+		timely = false // the second tick may have fired
 	}
+	// the template map is read under templateMutex: a mutex that was never released (a failed
+	// refresh used to leave it locked) must show up as an observation, not as a hung harness
+	idc := make(chan []uint16, 1)
+	go func() { idc <- ep.VerifTemplateIDs() }()
 	tp := "-"
-	if len(idl) > 0 {
-		tp = strings.Join(idl, ",")
+	select {
+	case ids := <-idc:
+		idl := make([]string, len(ids))
+		for i, id := range ids {
+			idl[i] = fmt.Sprint(id)
+		}
+		if len(idl) > 0 {
+			tp = strings.Join(idl, ",")
+		}
+	case <-time.After(5 * time.Second):
+		tp = "LOCKED"
 	}
 	seq := ep.VerifSeq()
 	ep.CloseConnToCollector()
 	stray := p.drain()
 	out = append(out, fmt.Sprintf("tpls=%s seq=%d stray=%s", tp, seq, ShowBytes(stray)))
-	return strings.Join(out, " ")
+	return strings.Join(out, " "), timely
+}
+
+// waitRefresh reads what the refresh goroutine of a UDP exporter (TempRefTimeout = 1 s) sends
+// at its first tick: one message per registered template, in the (random) order of the map.
+// Reported sorted by their bytes, export time checked and zeroed: "f=<k> w=.. .. t=ok|bad|-".
+// Not timely: the history before the wait took so long that the tick may already have fired.
+func waitRefresh(p *peer, ep *exporter.ExportingProcess, tInit time.Time, mode string) (string, bool) {
+	timely := time.Since(tInit) < 850*time.Millisecond
+	want := len(ep.VerifTemplateIDs())
+	var msgs [][]byte
+	if p.proto == "udp" {
+		deadline := tInit.Add(1850 * time.Millisecond)
+		buf := make([]byte, 70000)
+		for time.Now().Before(deadline) {
+			p.udp.SetReadDeadline(deadline)
+			k, _, err := p.udp.ReadFromUDP(buf)
+			if err != nil {
+				break
+			}
+			msgs = append(msgs, append([]byte(nil), buf[:k]...))
+			if len(msgs) >= want {
+				// anything else the same tick sends follows within microseconds
+				deadline = time.Now().Add(60 * time.Millisecond)
+				if lim := tInit.Add(1900 * time.Millisecond); deadline.After(lim) {
+					deadline = lim
+				}
+			}
+		}
+		if want == 0 {
+			// nothing registered: nothing may arrive around the tick
+		}
+	}
+	t1 := time.Now().Unix()
+	tk := "-"
+	for _, b := range msgs {
+		if tk == "-" {
+			tk = "ok"
+		}
+		if len(b) >= 8 {
+			et := int64(binary.BigEndian.Uint32(b[4:8]))
+			if et < tInit.Unix() || et > t1 {
+				tk = "bad"
+			}
+			copy(b[4:8], []byte{0, 0, 0, 0})
+		} else {
+			tk = "bad"
+		}
+	}
+	sort.Slice(msgs, func(i, j int) bool { return bytes.Compare(msgs[i], msgs[j]) < 0 })
+	var sb strings.Builder
+	fmt.Fprintf(&sb, "f=%d", len(msgs))
+	for _, b := range msgs {
+		sb.WriteString(" w=" + showWire(mode, b))
+	}
+	sb.WriteString(" t=" + tk)
+	return sb.String(), timely
 }
 
 // replayHist runs the replay lines of a history property.
